@@ -657,12 +657,25 @@ def undefine_unused_variables(source: str, preserve: Collection[str] = frozenset
             class_body_blacklist.update(parsing.assignment_targets(node))
             class_body_blacklist.add(node)
 
+    # The variable of a comprehension that the comprehension reads is in use, wherever the
+    # comprehension stands (also in the target of an assignment).
+    comprehension_variables_in_use = {
+        target
+        for comprehension in core.walk(
+            root, (ast.ListComp, ast.SetComp, ast.DictComp, ast.GeneratorExp)
+        )
+        for generator in comprehension.generators
+        for target in core.walk(generator.target, ast.Name)
+        if any(core.walk(comprehension, ast.Name(id=target.id, ctx=ast.Load)))
+    }
+
     yielded = set()
     for name in _iter_unused_names(root):
         if (
             name.id not in preserve
             and name.id != "_"
             and name not in class_body_blacklist
+            and name not in comprehension_variables_in_use
             and name not in yielded
         ):
             yield name, ast.Name(id="_")
